@@ -139,11 +139,12 @@ pub struct AgentCensus {
     pub trades: u64,
     pub updates_while_trading_disabled: u64,
     pub updates_on_crossed_book: u64,
+    pub saturated_momentum_updates: u64,
 }
 impl AgentCensus {
     pub fn merge(&mut self, o: &AgentCensus) {
         macro_rules! add { ($($f:ident),*) => { $( self.$f += o.$f; )* } }
-        add!(configs, updates, new_orders, limit_buys, limit_sells, market_orders, cancellations, adversarial_configs, injected_words, sigma10_configs, p0_knobs, p1_knobs, clamped_high_prices, clamped_zero_prices, trades, updates_while_trading_disabled, updates_on_crossed_book);
+        add!(configs, updates, new_orders, limit_buys, limit_sells, market_orders, cancellations, adversarial_configs, injected_words, sigma10_configs, p0_knobs, p1_knobs, clamped_high_prices, clamped_zero_prices, trades, updates_while_trading_disabled, updates_on_crossed_book, saturated_momentum_updates);
         for i in 0..6 {
             self.per_kind[i] += o.per_kind[i];
         }
@@ -291,6 +292,9 @@ fn run_host<H: Host>(mut host: H, c: &AgentCfg, cs: &mut AgentCensus, tallies: &
     let mut t_lim = (0u64, 0u64);
     let mut t_mkt = (0u64, 0u64);
     let mut t_can = (0u64, 0u64);
+    // momentum agents: the documented signal recomputed from the mids this monitor observed before each update
+    let mut mom_m = 0.0f64;
+    let mut mom_last: Option<f64> = None;
     if c.kind == 0 {
         if c.activity <= 0.0 { cs.p0_knobs += 1 } else if c.activity >= 1.0 { cs.p1_knobs += 1 }
     } else {
@@ -458,6 +462,44 @@ fn run_host<H: Host>(mut host: H, c: &AgentCfg, cs: &mut AgentCensus, tallies: &
                     t_can.1 += own_active.len() as u64;
                 }
             }
+            if c.kind == 2 {
+                // activity follows |demand*tanh(scale*M)|/n: at or above 1 every trader submits exactly one market order
+                // (and one limit order if ratio times that is at or above 1) on the side given by the sign of M; M = 0: nothing
+                let nf = c.n_agents as f64;
+                let (m_new, p) = match mom_last {
+                    Some(lp) => {
+                        let mm = mom_m * (1.0 - c.decay) + c.decay * (mid - lp);
+                        (mm, (c.demand * f64::tanh(c.scale * mm)).abs() / nf)
+                    }
+                    None => (0.0, 0.0),
+                };
+                for o in &created {
+                    if m_new.abs() > 1e-9 && o.bid != (m_new > 0.0) {
+                        return bad("momentum_wrong_side", format!("step {}: M = {} but {:?}", step, m_new, o));
+                    }
+                }
+                if m_new == 0.0 && !created.is_empty() {
+                    return bad("action_at_probability_0", format!("step {}: momentum 0 but {} orders submitted", step, created.len()));
+                }
+                if m_new != 0.0 && p.is_finite() && p >= 1.001 {
+                    cs.saturated_momentum_updates += 1;
+                    for tr in c.id_start..c.id_start + c.n_agents as u32 {
+                        let mk = per_trader_market.get(&tr).copied().unwrap_or(0);
+                        let lm = per_trader_limit.get(&tr).copied().unwrap_or(0);
+                        if mk != 1 {
+                            return bad("no_action_at_probability_1", format!("step {}: M = {:.4}, |demand*tanh(scale*M)|/n = {:.3} >= 1 but trader {} submitted {} market orders", step, m_new, p, tr, mk));
+                        }
+                        if c.order_ratio * p >= 1.001 && lm != 1 {
+                            return bad("no_action_at_probability_1", format!("step {}: M = {:.4}, ratio*p = {:.3} >= 1 but trader {} submitted {} limit orders", step, m_new, c.order_ratio * p, tr, lm));
+                        }
+                        if c.order_ratio == 0.0 && lm != 0 {
+                            return bad("action_at_probability_0", format!("step {}: order ratio 0 but trader {} submitted a limit order", step, tr));
+                        }
+                    }
+                }
+                mom_m = m_new;
+                mom_last = Some(mid);
+            }
             if c.kind == 1 {
                 let traders = c.id_start..c.id_start + c.n_agents as u32;
                 for (p, map, what, tl) in [(c.p_limit, &per_trader_limit, "limit", &mut t_lim), (c.p_market, &per_trader_market, "market", &mut t_mkt)] {
@@ -609,11 +651,12 @@ pub fn c16(ctx: &Ctx) -> i32 {
         ("market_orders", cs.market_orders, 2000),
         ("updates_while_trading_disabled", cs.updates_while_trading_disabled, 5000),
         ("updates_on_crossed_book", cs.updates_on_crossed_book, 2000),
+        ("saturated_momentum_updates", cs.saturated_momentum_updates, 2000),
     ]);
     let cov = json!({
         "evaluations": cs.updates,
         "distinct_nontrivial": d.len(),
-        "rule": "cases = agent update calls inside seeded simulations (one agent family per simulation so ownership is unambiguous: random / noise / momentum, single- and multi-asset; ticks 1..10, agent counts 1..40, probabilities in {0, (0,1), 1, 1.5}, sigma in {0.1, 1, 10}, empty / bid-only / ask-only / two-sided starting books, 1..200 steps; 30% of the simulations spend all or the second half of their steps with trading disabled on a crossed book; 30% of the simulations under an adversarial RngCore that injects boundary words); judged: every order created by an update (grid, tick range, side of the observed mid, volume, trader id, asset), every queued cancellation (hook H1: own order, Active at the look), one live order per random agent, p=0 never / p>=1 exactly once per trader, Bernstein bands for p in (0,1), and no panic in update/step; distinct = distinct configurations; non-trivial = the configuration emitted at least one instruction",
+        "rule": "cases = agent update calls inside seeded simulations (one agent family per simulation so ownership is unambiguous: random / noise / momentum, single- and multi-asset; ticks 1..10, agent counts 1..40, probabilities in {0, (0,1), 1, 1.5}, sigma in {0.1, 1, 10}, empty / bid-only / ask-only / two-sided starting books, 1..200 steps; 30% of the simulations spend all or the second half of their steps with trading disabled on a crossed book; 30% of the simulations under an adversarial RngCore that injects boundary words); judged: every order created by an update (grid, tick range, side of the observed mid, volume, trader id, asset), every queued cancellation (hook H1: own order, Active at the look), one live order per random agent, p=0 never / p>=1 exactly once per trader (for momentum agents the probability |demand*tanh(scale*M)|/n and the side sign(M) are recomputed from the mids observed before each update), Bernstein bands for p in (0,1), and no panic in update/step; distinct = distinct configurations; non-trivial = the configuration emitted at least one instruction",
         "samples": samples,
         "census": cs,
         "frequency_bands": bands,
